@@ -169,6 +169,34 @@ def gen_table(
     return {"columns": columns, "rows": out_rows, "meta": meta}
 
 
+# Pairs of peptide-like strings whose 32-bit checksums collide (crc32 / adler32 of the string itself and of
+# str([string]), the key format of mokapot's "seen" sets): distinct entities that a hashed key would merge.
+HASH_TWINS = [["NRASVLFMNK", "TLDQLPMMLK"], ["NGELWQRSHEK", "PFNCYRMDTIK"], ["VEDVYFSLCMHTK", "NYNIGPQHECPYK"], ["LHCYLGRTFMK", "VLDARIHTMQK"], ["NSRISPMPGCEYK", "YQGWQCHENLMTK"], ["GWRNRPQCWFTK", "TEWIRQQHRWGK"], ["IAIFHPNYDK", "TGNTAGLRPQQVK"], ["VSWDPAAAAK", "NEDCSPEGRAK"], ["WIDCSFVDVCSTK", "YRIGYRMQDWPYLK"], ["HESAPMPTK", "DVLCIRSPSGHQK"], ["QGGDPDAYTEK", "SQWTCYRMWAPLPK"], ["SFNMVCYMK", "PEMFGLTIAWK"]]
+
+
+def plant_hash_twins(table, n_pairs, rng):
+    """Rename 2*n_pairs target peptides (all their occurrences, also inside the modified-peptide / precursor columns)
+    to colliding twins."""
+    cols = table["columns"]
+    pi = cols.index("Peptide")
+    li = cols.index("Label")
+    peps = []
+    for r in table["rows"]:
+        if (r[li] is True or r[li] == 1) and r[pi] not in peps:
+            peps.append(r[pi])
+    pairs = rng.sample(HASH_TWINS, min(n_pairs, len(HASH_TWINS), len(peps) // 2))
+    ren = {}
+    for k, (a, b) in enumerate(pairs):
+        ren[peps[2 * k]], ren[peps[2 * k + 1]] = a, b
+    sc = [cols.index(c) for c in ("Peptide", "ModifiedPeptide", "Precursor") if c in cols]
+    for r in table["rows"]:
+        old = r[pi]
+        if old in ren:
+            for j in sc:
+                r[j] = r[j].replace(old, ren[old])
+    return table
+
+
 def hash_stable(s):
     h = 0
     for ch in s:
@@ -196,11 +224,12 @@ def fmt_cell(v):
     return str(v)
 
 
-def write_pin(path, table):
+def write_pin(path, table, na_token=""):
+    """na_token: how a missing value is spelled (empty field, or what R / spreadsheets write: NA, N/A, null, NaN ...)."""
     with open(path, "w", newline="") as fh:
         fh.write("\t".join(table["columns"]) + "\n")
         for r in table["rows"]:
-            fh.write("\t".join(fmt_cell(v) for v in r) + "\n")
+            fh.write("\t".join(na_token if v is None else fmt_cell(v) for v in r) + "\n")
 
 
 def with_range_index_metadata(tbl, start):
@@ -250,11 +279,11 @@ def write_parquet(path, table, row_group_size=None, dict_strings=False, index_st
     pq.write_table(tbl, path, **kw)
 
 
-def write_table(path, table, row_group_size=None, dict_strings=False, index_start=0):
+def write_table(path, table, row_group_size=None, dict_strings=False, index_start=0, na_token=""):
     if str(path).endswith(".parquet"):
         write_parquet(path, table, row_group_size, dict_strings=dict_strings, index_start=index_start)
     else:
-        write_pin(path, table)
+        write_pin(path, table, na_token=na_token)
 
 
 # --------------------------------------------------------------------- knobs
